@@ -62,6 +62,32 @@ def gen_case(rng, big=False):
     return "M %d %d %s" % (nr, nc, " ".join(ops))
 
 
+def gen_wide(rng):
+    """few rows, many columns (33 .. 130, or one above 32767): entries at and around the multiples of 32 and 1024, with whole words left
+    empty, and the dense round trip after most steps (seed C17h: the dense -> sparse conversion skipped column 32(w+1) after an all-zero
+    word; seed C04h: entry coordinates narrowed to 16 bits)"""
+    nr = rng.choice([1, 1, 2, 3]); nc = rng.choice([33, 64, 65, 96, 97, 128, 130, 1025, 33000 if rng.chance(1, 4) else 70])
+    ops = []
+    marks = [c for c in (0, 31, 32, 33, 63, 64, 65, 95, 96, 127, 128, 129, 1023, 1024, 32766, 32767, 32768, 32999) if c < nc] + [nc - 1]
+    for _ in range(rng.rng(3, 14)):
+        i, j = rng.below(nr), rng.choice(marks)
+        k = rng.below(10)
+        if k < 6:
+            ops.append("i,%d,%d" % (i, j))
+        elif k < 8:
+            ops.append("d,%d,%d" % (i, j))
+        else:
+            ops.append("f,%d,%d" % (i, j))
+        if nc <= 2000 and rng.chance(1, 2):
+            ops.append("D")
+        if rng.chance(1, 4):
+            ops.append("E,%d" % rng.choice(marks))
+    if nc <= 2000:
+        ops.append("D")
+    ops.append("w,%d" % rng.below(nr))
+    return "M %d %d %s" % (nr, nc, " ".join(ops))
+
+
 def parse_junk(s):
     return set() if s in ("", "-") else {tuple(int(x) for x in p.split(".")) for p in s.split(":")}
 
@@ -132,6 +158,7 @@ def run(c):
         c.proof_failed.append({"translator": "of_mod2sparse_block is %s, the model's BLOCK is 1024" % (blk.group(1) if blk else None)})
     n = 400 if c.tier == "quick" else 4000
     reqs = [gen_case(c.rng, big=(i % 10 == 9)) for i in range(n)]
+    reqs += [gen_wide(c.rng) for _ in range(n // 10)]
     # a few sequences that recycle many entries (more than one block)
     for _ in range(2 if c.tier == "quick" else 10):
         ops = []
